@@ -35,16 +35,18 @@ VARIABLES frames,   \* Seq([lead, body, trail, ok]) sent by the peer
 vars == <<frames, stream, off, buf, rp, mp, pc, results, closed>>
 
 \* ---- the abstract byte alphabet -------------------------------------------------
-\* <<"w">> JSON whitespace, <<"j", i, k>> k-th byte of the document of frame i,
+\* <<"w", i>> JSON whitespace of frame i, <<"j", i, k>> k-th byte of the document of frame i,
 \* <<"N">> NUL, <<"z">> zero fill of the buffer (also a NUL for the code!)
-W == <<"w", 0, 0>>
+\* A frame with body = 0 holds nothing but whitespace (lead + trail >= 1): no document, it owes one
+\* error result of its own ("blank"; the code reports it with its end-of-stream variant).
+W(i) == <<"w", i, 0>>
 N == <<"N", 0, 0>>
 Z == <<"z", 0, 0>>
 J(i, k) == <<"j", i, k>>
 IsNul(b) == b[1] = "N" \/ b[1] = "z"
 
-FrameBytes(i, f) == [x \in 1..f.lead |-> W] \o [x \in 1..f.body |-> J(i, x)]
-                    \o [x \in 1..f.trail |-> W] \o <<N>>
+FrameBytes(i, f) == [x \in 1..f.lead |-> W(i)] \o [x \in 1..f.body |-> J(i, x)]
+                    \o [x \in 1..f.trail |-> W(i)] \o <<N>>
 RECURSIVE StreamOf(_, _)
 StreamOf(fs, i) == IF i > Len(fs) THEN <<>> ELSE FrameBytes(i, fs[i]) \o StreamOf(fs, i + 1)
 FrameLen(f) == f.lead + f.body + f.trail + 1
@@ -67,11 +69,12 @@ NextNul(p) == IF p >= Len(buf) - 1 \/ IsNul(At(p)) THEN p ELSE NextNul(p + 1)
 
 \* ---- decoding --------------------------------------------------------------------
 \* Decoding exactly the slice [from, nul): a whole frame decodes to its own result,
-\* only whitespace (or nothing) is reported as end-of-stream by the code,
+\* nothing at all is reported as end-of-stream by the code, only whitespace is the error result
+\* of the blank frame it starts with (the code uses its end-of-stream variant for it),
 \* anything else is garbage (a decode error that no frame owns).
 DecodeSlice(from, nul) ==
     LET p == SkipWs(from) IN
-    IF p >= nul THEN <<"eof", 0>>
+    IF p >= nul THEN (IF from < nul /\ from < Len(buf) /\ At(from)[1] = "w" THEN <<"blank", At(from)[2]>> ELSE <<"eof", 0>>)
     ELSE IF At(p)[1] = "j" /\ At(p)[3] = 1
             /\ p + frames[At(p)[2]].body + frames[At(p)[2]].trail = nul
             /\ \A q \in p..(nul - 1) :
@@ -140,11 +143,11 @@ Cancel == /\ pc = "read" /\ pc' = "idle"
 Next == Start \/ (\E n \in 1..B + Len(buf) : Read(n)) \/ PeerClose \/ Eof \/ Fail \/ Parse \/ Cancel
 
 \* ---- properties (C01, C07, C17 inbound) ------------------------------------------
-Expected(i) == IF frames[i].ok THEN <<"ok", i>> ELSE <<"bad", i>>
+Expected(i) == IF frames[i].body = 0 THEN <<"blank", i>> ELSE IF frames[i].ok THEN <<"ok", i>> ELSE <<"bad", i>>
 
 \* One result per frame, in order; nothing fabricated, dropped or duplicated; end-of-stream
 \* only after the peer closed and every frame was delivered; overflow only at the limit.
-NumFrameResults == Cardinality({x \in 1..Len(results) : results[x][1] \in {"ok", "bad", "garbage"}})
+NumFrameResults == Cardinality({x \in 1..Len(results) : results[x][1] \in {"ok", "bad", "garbage", "blank"}})
 FramingInv ==
     \A x \in 1..Len(results) :
         \/ (x <= Len(frames) /\ results[x] = Expected(x))
@@ -160,5 +163,5 @@ SmallFramesAccepted ==
         \E y \in 1..Len(frames) : EndOfFrame(frames, y) - EndOfFrame(frames, NumFrameResults) >= MAXB
 \* a result is never produced from bytes that were not received yet
 NothingFromTheFuture ==
-    \A x \in 1..Len(results) : results[x][1] \in {"ok", "bad"} => EndOfFrame(frames, x) <= off
+    \A x \in 1..Len(results) : results[x][1] \in {"ok", "bad", "blank"} => EndOfFrame(frames, x) <= off
 =============================================================================
